@@ -279,9 +279,14 @@ def run_parent(args) -> int:
     open_keys = {f["key"]: f for f in findings if f.get("status") == "open"}
     known_seen: dict = {}
     unlisted = []
+    suspect = []
     for v in merged["violations"]:
         mech = v.get("mech")
-        if mech and mech in open_keys:
+        if str(v.get("kind", "")).startswith(("MONITOR-ERROR", "ORACLE-SUSPECT", "INCONCLUSIVE-")):
+            # the machinery doubts itself (its references disagree with each other, a hook missed
+            # events, a thread got stuck): that is neither "held" nor a violation of the property
+            suspect.append(v)
+        elif mech and mech in open_keys:
             known_seen.setdefault(mech, []).append(v)
         else:
             unlisted.append(v)
@@ -311,6 +316,8 @@ def run_parent(args) -> int:
             lines.append(f"  kind={v.get('kind')} mech={v.get('mech')} detail={' '.join(str(v.get('detail')).split())[:400]}")
         rc = 1
     # ---- inconclusive conditions (never reported as held)
+    if suspect:
+        inconclusive.append(f"{len(suspect)} observation(s) in which the monitor doubts itself, e.g. {suspect[0].get('kind')}: {' '.join(str(suspect[0].get('detail')).split())[:300]}")
     if merged["harness_errors"]:
         he = merged["harness_errors"][0]
         inconclusive.append("harness error: " + (he if isinstance(he, str) else he.get("tb", ""))[-700:].replace("\n", " | "))
